@@ -23,7 +23,7 @@ SPEC = {
     ],
     "jobs": [
         {"name": "plain", "harness": "c14_pdc", "srcs": ["harness/c14_pdc.c"], "flavour": "plain",
-         "cases": {"quick": 1600000, "thorough": 100000000}, "params": {"p0": {"quick": 25, "thorough": 12}}, "budget": 20},
+         "cases": {"quick": 3200000, "thorough": 100000000}, "params": {"p0": {"quick": 25, "thorough": 12}}, "budget": 20},
         {"name": "asan", "harness": "c14_pdc", "srcs": ["harness/c14_pdc.c"], "flavour": "asan",
          "cases": {"quick": 200000, "thorough": 2000000}, "params": {"p0": 30}, "budget": 20},
     ],
